@@ -547,6 +547,24 @@ def confusable_key_pairs():
 SECRET_GROUPS = [["0042", "042", "42", "42.0", "+42", " 42"], ["1e3", "1000.0", "1000.00", "1_000.0", "1000"],
                  ["nan", "NaN", "-nan"], ["inf", "Infinity", "+inf"], ["\u0661\u0662\u0663", "123"], ["0", "00", "0.0", "-0"],
                  ["s3cret", "S3CRET", "s3cret "], ["caf\u00e9", "cafe\u0301"], ["20240117", "20240118", "2024011.7e1"]]
+# secrets that contain a separator-like character, next to their parts, their first part with another tail, the parts in the
+# other order, the text with a leading / trailing separator: what ANY splitting of the configured text (a "list of secrets" in
+# one string: `new,old`) would turn into overlapping sets of keys.  The configured text is ONE secret, as a whole
+# (Model/Serial.lean toBytes; Props/C10.lean any_secret_verifier_accepts_foreign_secret shows what a verifier that tries
+# several secrets does): every pair of different texts below must be refused, as settings url / str keyword / bytes keyword.
+SEPARATORS = [",", ";", ":", "|", " ", "\t"]
+SEPARATORS_THOROUGH = ["\n", "&", "/", "+", "=", ".", "-"]
+
+
+def separator_groups(thorough: bool):
+    out = [["alpha,beta", "alpha", "beta", "alpha,gamma", "beta,alpha"], ["s3cr3t", "s3cr3t,", ",s3cr3t"],
+           ["pass,word", "pass", "word", "password", "pass, word"]]
+    for sep in SEPARATORS + (SEPARATORS_THOROUGH if thorough else []):
+        out.append([f"new{sep}old", "new", "old", f"old{sep}new", f"new{sep}", f"{sep}new", f"new{sep}other"]
+                   + ([f"new{sep}{sep}old"] if thorough else []))
+    return out
+
+
 # secrets that HMAC ITSELF identifies: the key is zero-padded to the hash's block size, so b"k" and b"k\x00" are one HMAC key
 # (likewise a key longer than the block and its digest - binary, not expressible as a secret text here).  Inherent to HMAC,
 # not to cashews: outside `MacInjective`, inside `MacInjectiveUpTo` (Props/C10.lean, mac_equivalent_secrets_accept).  Swapped
@@ -579,8 +597,9 @@ def swap_scenarios(chk: Check):
             return todo
 
         out.append((f"keys:{conf.name()}", conf, writes, attacks))
-    for gi, group in enumerate(SECRET_GROUPS + HMAC_EQUIVALENT_SECRETS):
-        swap_class = "secretswap_spelling" if gi < len(SECRET_GROUPS) else "secretswap_hmac_equivalent"
+    groups = SECRET_GROUPS + separator_groups(chk.thorough)
+    for gi, group in enumerate(groups + HMAC_EQUIVALENT_SECRETS):
+        swap_class = "secretswap_spelling" if gi < len(groups) else "secretswap_hmac_equivalent"
         digest = S.KEYED[(gi + chk.seed) % 3]
         pt = ["default", "json", None][(gi + chk.seed) % 3] if chk.thorough or gi % 2 else "default"
         for via in ("url", "kwstr"):
@@ -889,7 +908,8 @@ def run(chk: Check) -> int:
             "confusable_key_pairs": len(key_pairs),
             "confusable_key_pairs_by_conversion": {w: sum(1 for _, _, x in key_pairs if x == w) for w in sorted({x for _, _, x in key_pairs})},
             "keys_without_an_encoding_not_writable": sorted({ascii(w["key"]) for w in write_log if w["res"] is not True}),
-            "secret_groups": len(SECRET_GROUPS), "secret_spellings": sum(len(g) for g in SECRET_GROUPS),
+            "secret_groups": len(SECRET_GROUPS) + len(separator_groups(chk.thorough)),
+            "secret_spellings": sum(len(g) for g in SECRET_GROUPS + separator_groups(chk.thorough)),
             "swap_scenarios": len(swaps), "swap_attacks": len(swap_recs),
             "attacks_by_class": {c: sum(1 for r in swap_recs if r["class"] == c) for c in sorted({r["class"] for r in swap_recs})},
             "secret_probe_not_signing": unusable,
@@ -901,7 +921,9 @@ def run(chk: Check) -> int:
                     "signed: mirrored by the model, stored=err / macerr:key), each blob is copied under the other key and read "
                     "through get, get_many, get_match - acceptance of such a copy IS a collision of the real key conversion. "
                     "secrets: groups of different secret texts that int()/float() parsing or a str() rendering identifies (0042/042/"
-                    "42/42.0, 1e3/1000.0, nan/NaN, Arabic-Indic digits, zeroes) plus controls, configured through the settings url and "
+                    "42/42.0, 1e3/1000.0, nan/NaN, Arabic-Indic digits, zeroes) plus controls, and groups built around a separator-like "
+                    "character (',', ';', ':', '|', blank, TAB; thorough: more): new<sep>old with its parts, the parts in the other order, "
+                    "the first part with another tail, leading / trailing separator - a configured text is ONE secret; configured through the settings url and "
                     "as str keyword; every configuration is first probed (can it sign?); a blob written under one spelling is read by "
                     "readers configured with each other spelling (judged) and with the same text given as url / str / bytes (the same "
                     "secret: model comparison only)",
